@@ -116,6 +116,20 @@ func (i *FSMInstance) Do(event fsm.Event, args ...interface{}) (result *fsm.Resp
 		return nil, []byte{}, errors.New("machine is not initialized")
 	}
 
+	// a machine that has reached one of its final states routes nothing more: when that state is
+	// the entry state of the next machine, the round is handed over to it, exactly as FromDump
+	// does for the persisted round
+	if state := i.machine.State(); i.machine.IsFinState(state) {
+		pool := fsm_pool.Init(
+			signature_proposal_fsm.New(),
+			dkg_proposal_fsm.New(),
+			signing_proposal_fsm.New(),
+		)
+		if next, poolErr := pool.MachineByState(state); poolErr == nil && next.Name() != i.machine.Name() {
+			i.machine = next.(internal.DumpedMachineProvider).WithSetup(state, i.dump.Payload)
+		}
+	}
+
 	result, err = i.machine.Do(event, args...)
 
 	// On route errors result will be nil
